@@ -9,7 +9,12 @@ correspondence.
 
 Fail-closed: any statement, expression, receiver or call outside the recognised shapes aborts the generation with
 `unrecognised shape`.  What is normalised: names of parameters and locals; `x = list(p.iterdir()); x.sort(); for e in x`
-and `for e in sorted(x)` = `for e in sorted(p.iterdir())`; `path.name` vs a local bound to it; == / != / not; truthiness of
+and `for e in sorted(x)` = `for e in sorted(p.iterdir())`; a local bound to a side-effect-free expression (a constant, `path.name`,
+`first._is_c_module or isinstance(first, Package)`, `replaced.parent`, `self.unprocessed_modules`) is replaced by it; a local bound to
+an effect-free value outside the language (`len(self.allobjects)`) is dropped and becomes unreadable; a same-class helper taking
+`first` that only wraps recognised statements is inlined; `for m in G(first)` over a module-level generator G of the work-list shape
+is the work list; `try: L.remove(x) except ValueError: pass` = `if x in L: L.remove(x)`;
+`next((s for s in all_suffixes() if name.endswith(s)), None)` is the primitive DFirstSuffix; == / != / not; truthiness of
 `first`; calls without effect on the modelled state (self.msg / self.progress / <module>.report with side-effect-free
 arguments, `self.module_count += 1`) are dropped; guard clauses (`continue` / `return`) are ordinary statements of the
 language, so nested-if and early-exit forms translate to different terms with the same interpretation."""
@@ -78,8 +83,82 @@ def dropped_call(c: ast.Call, modvars) -> bool:
     return ok
 
 
+# ================================================================================ locals that only name a pure expression
+INLINE_METHODS = {'startswith', 'endswith', 'is_dir', 'exists', 'get', 'fullName'}
+
+
+def inlinable(e) -> bool:
+    """side-effect free and cheap to re-evaluate: names, attributes, constants, comparisons, not/and/or, `/` on paths,
+    isinstance(..), and a few read-only methods.  A local bound to such an expression is replaced by it."""
+    for sub in ast.walk(e):
+        if isinstance(sub, (ast.Name, ast.Attribute, ast.Constant, ast.Compare, ast.BoolOp, ast.UnaryOp, ast.Load,
+                            ast.And, ast.Or, ast.Not, ast.Eq, ast.NotEq, ast.Is, ast.IsNot, ast.In, ast.NotIn, ast.Div)):
+            continue
+        if isinstance(sub, ast.BinOp) and isinstance(sub.op, ast.Div):
+            continue
+        if isinstance(sub, ast.Call) and not sub.keywords:
+            f = sub.func
+            if isinstance(f, ast.Name) and f.id == 'isinstance':
+                continue
+            if isinstance(f, ast.Attribute) and f.attr in INLINE_METHODS:
+                continue
+        return False
+    return True
+
+
+class Subst(ast.NodeTransformer):
+    def __init__(self, aliases):
+        self.aliases = aliases
+
+    def visit_Name(self, node):
+        if isinstance(node.ctx, ast.Load) and node.id in self.aliases:
+            import copy
+            return copy.deepcopy(self.aliases[node.id])
+        return node
+
+
+class Inliner:
+    def init_inliner(self):
+        self.aliases = {}
+        self.dead = set()
+
+    def subst_stmt(self, s):
+        """the statement with every aliased local replaced by what it names (targets of assignments excepted)"""
+        import copy
+        s = copy.deepcopy(s)
+        if isinstance(s, (ast.Assign, ast.AnnAssign)):
+            if s.value is not None:
+                s.value = Subst(self.aliases).visit(s.value)
+            return s
+        if isinstance(s, (ast.If, ast.While)):
+            s.test = Subst(self.aliases).visit(s.test)
+            return s                      # the bodies are substituted when they are translated
+        if isinstance(s, ast.For):
+            s.iter = Subst(self.aliases).visit(s.iter)
+            return s
+        if isinstance(s, ast.Try):
+            return s
+        return ast.fix_missing_locations(Subst(self.aliases).visit(s))
+
+    def try_alias(self, s) -> bool:
+        """`x = <pure expression>`: remember it; `x = <effect-free value outside the language>` (len(..)): x becomes unreadable"""
+        tgt = s.targets[0] if isinstance(s, ast.Assign) and len(s.targets) == 1 else getattr(s, 'target', None)
+        if not isinstance(tgt, ast.Name) or s.value is None:
+            return False
+        if inlinable(s.value):
+            self.aliases[tgt.id] = s.value
+            self.dead.discard(tgt.id)
+            return True
+        if pure(s.value) and all(isinstance(c.func, ast.Name) and c.func.id == 'len'
+                                 for c in ast.walk(s.value) if isinstance(c, ast.Call)):
+            self.aliases.pop(tgt.id, None)
+            self.dead.add(tgt.id)
+            return True
+        return False
+
+
 # ================================================================================ language D
-class Discovery:
+class Discovery(Inliner):
     def __init__(self, fn, kind):
         self.fn, self.kind = fn, kind           # kind: 'pkg' | 'mod'
         a = fn.args
@@ -89,11 +168,13 @@ class Discovery:
         if len(ps) != 3 or ps[0] != 'self':
             bad('parameters of %s' % fn.name, fn)
         self.path, self.parent = ps[1], ps[2]
+        self.init_inliner()
         self.pkgvar = None                      # addPackage: the local holding the new package
         self.loopvar = None
         self.seqvars = {}                       # local -> 'listing' | 'sorted'
         self.namevars = set()                   # addModuleFromPath: locals bound to path.name
         self.sfxvar = None
+        self.sfx_optional = False               # the suffix was chosen with next(.., None)
         self.modvar = None
 
     # -- addPackage
@@ -168,6 +249,10 @@ class Discovery:
                     return which if isinstance(e.ops[0], ast.In) else 'DNot (%s)' % which
             if ast.unparse(e) == 'self.options.introspect_c_modules':
                 return 'DOptIntrospect'
+            if isinstance(e, ast.Compare) and len(e.ops) == 1 and isinstance(e.ops[0], (ast.Is, ast.IsNot, ast.Eq, ast.NotEq)) \
+                    and self.sfxvar and self.sfx_optional and is_name(e.left, self.sfxvar) \
+                    and isinstance(e.comparators[0], ast.Constant) and e.comparators[0].value is None:
+                return 'DSuffixIsNone' if isinstance(e.ops[0], (ast.Is, ast.Eq)) else 'DNot (DSuffixIsNone)'
         bad('condition', e)
 
     def is_fname(self, e):
@@ -177,7 +262,24 @@ class Discovery:
     def block(self, stmts):
         return seq([self.stmt(s) for s in stmts], 'DSkip', 'DSeq')
 
+    def first_suffix_call(self, v):
+        """next((s for s in importlib.machinery.all_suffixes() if <name>.endswith(s)), None)"""
+        if not (isinstance(v, ast.Call) and isinstance(v.func, ast.Name) and v.func.id == 'next' and len(v.args) == 2 and not v.keywords
+                and isinstance(v.args[1], ast.Constant) and v.args[1].value is None and isinstance(v.args[0], ast.GeneratorExp)):
+            return False
+        g = v.args[0]
+        if len(g.generators) != 1:
+            return False
+        gen = g.generators[0]
+        if not (isinstance(gen.target, ast.Name) and is_name(g.elt, gen.target.id) and len(gen.ifs) == 1
+                and ast.unparse(gen.iter) == 'importlib.machinery.all_suffixes()'):
+            return False
+        t = gen.ifs[0]
+        return (isinstance(t, ast.Call) and isinstance(t.func, ast.Attribute) and t.func.attr == 'endswith' and self.is_fname(t.func.value)
+                and len(t.args) == 1 and is_name(t.args[0], gen.target.id) and not t.keywords)
+
     def stmt(self, s):
+        s = self.subst_stmt(s)
         if isinstance(s, ast.Pass):
             return None
         if isinstance(s, ast.Continue):
@@ -208,13 +310,17 @@ class Discovery:
                     self.seqvars[tgt.id] = self.loop_source(v)
                     return None
             else:
-                if isinstance(v, ast.Attribute) and v.attr == 'name' and is_name(v.value, self.path):
-                    self.namevars.add(tgt.id)
-                    return None
                 if (isinstance(v, ast.Subscript) and self.is_fname(v.value) and isinstance(v.slice, ast.Slice) and v.slice.lower is None
                         and v.slice.step is None and self.sfxvar and ast.unparse(v.slice.upper) == '-len(%s)' % self.sfxvar):
                     self.modvar = tgt.id
                     return 'DStrip'
+                if self.first_suffix_call(v):
+                    if self.sfxvar:
+                        bad('second choice of the suffix', s)
+                    self.sfxvar, self.sfx_optional = tgt.id, True
+                    return 'DFirstSuffix'
+            if self.try_alias(s):
+                return None
             bad('assignment', s)
         if isinstance(s, ast.For):
             if s.orelse or not isinstance(s.target, ast.Name):
@@ -282,7 +388,7 @@ class Discovery:
 
 
 # ================================================================================ language R
-class Registry:
+class Registry(Inliner):
     def __init__(self, fn, kind):
         self.fn, self.kind = fn, kind           # 'aup' | 'hd'
         a = fn.args
@@ -297,6 +403,10 @@ class Registry:
             if len(ps) != 3 or ps[0] != 'self':
                 bad('parameters of %s' % fn.name, fn)
             self.first, self.mod = ps[1], ps[2]
+        self.init_inliner()
+        self.cls = None         # the class body, to inline same-class helpers
+        self.module = None      # the module, to recognise the tree generator
+        self.depth = 0
         self.wl = None          # (list var, item var) inside the work list
         self.pending_wl = None  # list var after `W = [first]`
 
@@ -375,10 +485,99 @@ class Registry:
             i += 1
         return seq(out, 'RSkip', 'RSeq')
 
+    def tree_generator(self, call):
+        """G(first) where G is a module-level generator of the shape
+             W = [root] | deque([root]); while W: x = W.pop() | W.popleft() | W.pop(0); yield x; W.extend(<Module children of x>)
+           (yield and extend in either order): it yields root and every module nested in it"""
+        if not (isinstance(call, ast.Call) and isinstance(call.func, ast.Name) and len(call.args) == 1 and not call.keywords
+                and is_name(call.args[0], self.first) and self.module is not None):
+            return False
+        fs = [n for n in self.module.body if isinstance(n, ast.FunctionDef) and n.name == call.func.id]
+        if len(fs) != 1 or len(fs[0].args.args) != 1:
+            return False
+        g = fs[0]
+        root = g.args.args[0].arg
+        body = strip_doc(g.body)
+        if len(body) != 2 or not isinstance(body[0], (ast.Assign, ast.AnnAssign)) or not isinstance(body[1], ast.While):
+            return False
+        tgt = body[0].targets[0] if isinstance(body[0], ast.Assign) else body[0].target
+        init = ast.unparse(body[0].value)
+        if not isinstance(tgt, ast.Name) or init not in ('[%s]' % root, 'deque([%s])' % root, 'collections.deque([%s])' % root):
+            return False
+        w = body[1]
+        if not is_name(w.test, tgt.id) or w.orelse or len(w.body) != 3:
+            return False
+        pop = w.body[0]
+        if not (isinstance(pop, ast.Assign) and isinstance(pop.targets[0], ast.Name)
+                and ast.unparse(pop.value) in ('%s.pop()' % tgt.id, '%s.popleft()' % tgt.id, '%s.pop(0)' % tgt.id)):
+            return False
+        x = pop.targets[0].id
+        rest = sorted(ast.unparse(st) for st in w.body[1:])
+        want = sorted(['yield %s' % x,
+                       '%s.extend((o for o in %s.contents.values() if isinstance(o, Module)))' % (tgt.id, x)])
+        norm = []
+        for st in w.body[1:]:
+            t = ast.unparse(st)
+            if isinstance(st, ast.Expr) and isinstance(st.value, ast.Call) and ast.unparse(st.value.func) == '%s.extend' % tgt.id \
+                    and len(st.value.args) == 1 and isinstance(st.value.args[0], (ast.GeneratorExp, ast.ListComp)):
+                gx = st.value.args[0]
+                gen = gx.generators[0]
+                if (len(gx.generators) == 1 and isinstance(gen.target, ast.Name) and is_name(gx.elt, gen.target.id)
+                        and ast.unparse(gen.iter) == '%s.contents.values()' % x and len(gen.ifs) == 1
+                        and ast.unparse(gen.ifs[0]) == 'isinstance(%s, Module)' % gen.target.id):
+                    t = 'EXTEND'
+            norm.append(t)
+        return sorted(norm) == sorted(['yield %s' % x, 'EXTEND'])
+
+    def inline_helper(self, c):
+        """self.<helper>(first): a method of the same class that only wraps recognised statements (no return value)"""
+        f = c.func
+        if self.cls is None or self.depth > 3 or c.keywords:
+            return None
+        ms = [n for n in self.cls.body if isinstance(n, ast.FunctionDef) and n.name == f.attr]
+        if len(ms) != 1:
+            return None
+        m = ms[0]
+        a = m.args
+        if a.vararg or a.kwarg or a.kwonlyargs or a.posonlyargs or a.defaults or len(a.args) != len(c.args) + 1 or a.args[0].arg != 'self':
+            return None
+        if not all(isinstance(x, ast.Name) for x in c.args):
+            return None
+        body = strip_doc(m.body)
+        for sub in ast.walk(ast.Module(body=body, type_ignores=[])):
+            if isinstance(sub, ast.Return):
+                bad('return inside the helper %s (it would not return from the caller)' % m.name, sub)
+        saved = dict(self.aliases)
+        for prm, arg in zip(a.args[1:], c.args):
+            if prm.arg != arg.id:
+                self.aliases[prm.arg] = ast.Name(id=arg.id, ctx=ast.Load())
+        self.depth += 1
+        out = self.block(body)
+        self.depth -= 1
+        self.aliases = saved
+        return out
+
     def stmt(self, s):
+        s = self.subst_stmt(s)
         F, M = self.first, self.mod
         if isinstance(s, ast.Pass):
             return None
+        if isinstance(s, ast.For) and self.kind == 'hd' and not s.orelse and isinstance(s.target, ast.Name) \
+                and self.tree_generator(s.iter):
+            if self.wl:
+                bad('nested work list', s)
+            self.wl = ('@generator', s.target.id)
+            body = self.block(s.body)
+            self.wl = None
+            return 'RWorklist (RSeq (%s) (RExtendChildren))' % body
+        if isinstance(s, ast.Try) and self.wl and not s.orelse and not s.finalbody and len(s.handlers) == 1 \
+                and s.handlers[0].type is not None and ast.unparse(s.handlers[0].type) == 'ValueError' \
+                and all(isinstance(b, ast.Pass) for b in s.handlers[0].body) and len(s.body) == 1:
+            inner = self.stmt(s.body[0])
+            if inner == 'RRemoveItemUnproc':
+                # list.remove raises ValueError exactly when the item is absent
+                return 'RIf (RItemInUnproc) (RRemoveItemUnproc) (RSkip)'
+            bad('try/except ValueError around something else than unprocessed_modules.remove(item)', s)
         if isinstance(s, ast.Assert):
             return 'RAssert (%s)' % self.expr(s.test)
         if isinstance(s, ast.Return):
@@ -397,6 +596,8 @@ class Registry:
                     bad('second lookup', s)
                 self.first = tgt.id
                 return 'RLookupFirst'
+            if self.try_alias(s):
+                return None
             bad('assignment', s)
         if isinstance(s, ast.Delete):
             if F and len(s.targets) == 1 and ast.unparse(s.targets[0]) == '%s.parent.contents[%s.name]' % (F, F):
@@ -418,6 +619,10 @@ class Registry:
                     return 'RAddObject'
                 if f.attr == '_remove' and self.kind == 'hd' and len(c.args) == 1 and is_name(c.args[0], F):
                     return 'RRemoveAllobjects'
+                if self.kind == 'hd':
+                    inl = self.inline_helper(c)
+                    if inl is not None:
+                        return inl
             if is_self_attr(f.value, 'unprocessed_modules'):
                 if f.attr == 'append' and self.kind == 'aup' and len(c.args) == 1 and is_name(c.args[0], M):
                     return 'RAppendUnproc'
@@ -465,9 +670,11 @@ def generate() -> dict:
     code_mod = d_mod.block(strip_doc(am.body))
     au = find_method(S, '_addUnprocessedModule')
     r_au = Registry(au, 'aup')
+    r_au.cls, r_au.module = S, tree
     code_au = r_au.block(strip_doc(au.body))
     hd = find_method(S, '_handleDuplicateModule')
     r_hd = Registry(hd, 'hd')
+    r_hd.cls, r_hd.module = S, tree
     code_hd = r_hd.block(strip_doc(hd.body))
 
     L = ['From Coq Require Import NArith List.', 'Import ListNotations.',
